@@ -258,6 +258,48 @@ def generate(rng: random.Random, tier: str):
             yield c
         for _ in range(120 if quick else 2500):
             yield context_case(rng, name)
+    # comments and processing instructions (appended stream): nodes of the DOM that are neither elements nor text
+    for name in SCHEMAS:
+        fixed = ["<p>a<!-- c -->b</p>", "<!-- x --><p>q</p>", "<p>a</p><!-- t -->tail", "<ul><!-- c --><li>x</li><!-- d --></ul>",
+                 "<!-- only -->", "<ol><!-- c --></ol>", "<pre>a<!-- c -->b</pre>", "<p><b>x<!-- c --></b>y</p>", "<?pi x?><p>z</p>",
+                 "<ul><li>a</li><!-- between --><ul><li>b</li></ul></ul>", "<table><!-- c --><tr><td>x<!-- d --></td></tr></table>"]
+        for h in fixed:
+            yield parse_case(name, h)
+        for _ in range(40 if quick else 800):
+            h = "".join(gen_html(rng, rng.randint(1, 4)) for _ in range(rng.randint(1, 3)))
+            # drop comments at a few tag boundaries
+            cuts = [i for i, ch in enumerate(h) if ch == "<"] + [len(h)]
+            for i in sorted(rng.sample(cuts, min(len(cuts), rng.randint(1, 3))), reverse=True):
+                h = h[:i] + rng.choice(["<!-- c -->", "<!---->", "<!-- <b>x</b> -->"]) + h[i:]
+            yield parse_case(name, h)
+    # attribute values that are present but falsy (appended stream): an empty href / src / title / alt must survive
+    # export and import like any other value
+    for name in SCHEMAS:
+        sc = SCHEMAS[name]
+        if "paragraph" not in sc.nodes:
+            continue
+        p = sc.nodes["paragraph"]
+        for _ in range(12 if quick else 200):
+            kids = [sc.text("see ")]
+            if "link" in sc.marks and p.allows_mark_type(sc.marks["link"]):
+                at = {"href": rng.choice(["", "h"])}
+                if "title" in sc.marks["link"].attrs:
+                    at["title"] = rng.choice([None, "", "t"])
+                kids.append(sc.text("this", [sc.marks["link"].create(at)]))
+            if "image" in sc.nodes and sc.nodes["image"].is_inline:
+                at = {k: rng.choice(["", "v"]) for k in sc.nodes["image"].attrs}
+                if all(v == "v" for v in at.values()):
+                    at[rng.choice(list(at))] = ""
+                kids.append(sc.nodes["image"].create(at))
+            kids.append(sc.text(" end"))
+            try:
+                doc = sc.top_node_type.create_and_fill(None, Fragment.from_(p.create(None, Fragment.from_(kids))))
+                doc.check()
+            except Exception:  # noqa: BLE001
+                continue
+            c = roundtrip_case(name, doc)
+            c.kind = f"roundtrip-falsy-attrs/{name}"
+            yield c
 
 
 def rebuild(desc):
